@@ -17,6 +17,7 @@ HERE = os.path.dirname(os.path.abspath(__file__))
 VERIF = os.path.dirname(HERE)
 REPO = '/repo'
 PROPS = ['C%02d' % i for i in range(1, 21)]
+WITH_TESTS = False  # --with-tests: also copy /repo/test, so the quick tier parses its test-unit subset as on /repo
 
 
 def run_one(args):
@@ -26,7 +27,7 @@ def run_one(args):
     try:
         root = os.path.join(base, 'r')
         os.makedirs(root)
-        for d in ('include', 'src'):
+        for d in ('include', 'src') + (('test',) if WITH_TESTS else ()):
             shutil.copytree(os.path.join(REPO, d), os.path.join(root, d))
         p = subprocess.run(['patch', '-p1', '-s', '-d', root, '-i', diff], stdout=subprocess.PIPE,
                            stderr=subprocess.STDOUT, text=True)
@@ -50,7 +51,10 @@ def main():
     ap.add_argument('--only', default=None)
     ap.add_argument('--props', default=None)
     ap.add_argument('-j', type=int, default=4)
+    ap.add_argument('--with-tests', action='store_true')
     a = ap.parse_args()
+    global WITH_TESTS
+    WITH_TESTS = a.with_tests
     diffs = sorted(glob.glob(os.path.join(HERE, 'benign', '*.diff')))
     if a.only:
         diffs = [d for d in diffs if a.only in os.path.basename(d)]
